@@ -257,6 +257,7 @@ type faultLoader struct {
 	calls  int
 	got    []loadRec
 	o      *Outcome
+	broken bool // a fault outside the Loader contract was injected during this call
 }
 
 type loadRec struct {
@@ -284,6 +285,18 @@ func (l *faultLoader) GetDelegation(c cid.Cid) (*delegation.Token, error) {
 				break
 			}
 			l.got = append(l.got, loadRec{cidHex(c.Bytes()), false})
+			switch f.Kind {
+			case "nilnil":
+				// OUTSIDE the Loader contract (a plain map lookup without the ok check): neither a
+				// delegation nor an error
+				l.o.Fault("loader_nil_nil")
+				l.broken = true
+				return nil, nil
+			case "panic":
+				l.o.Fault("loader_panic")
+				l.broken = true
+				panic("dsim: injected loader panic")
+			}
 			if f.Kind == "error" {
 				l.o.Fault("loader_error")
 				return nil, errInjectedLoader
@@ -1147,7 +1160,37 @@ func (w *worldExec) decideProv(label string, c *CheckSpec, useHook bool, prov st
 	if useHook {
 		entry = "ExecutionAllowedWithArgsHook"
 	}
-	if guard(o, entry, func() {
+	outOfContract := false
+	for _, f := range c.LFaults {
+		if f.Kind == "nilnil" || f.Kind == "panic" {
+			outOfContract = true
+		}
+	}
+	if outOfContract {
+		// a loader that breaks its contract may make the call panic (that is the caller's bug, not
+		// a finding); what it must never do is get the invocation allowed
+		panicked := false
+		func() {
+			defer func() {
+				if r := recover(); r != nil {
+					panicked = true
+				}
+			}()
+			if useHook {
+				err = inv.ExecutionAllowedWithArgsHook(ld, hookFor(c, &hookFailed))
+			} else {
+				err = inv.ExecutionAllowed(ld)
+			}
+		}()
+		if panicked {
+			o.Probe("panic_on_out_of_contract_loader")
+			o.Logf("check %s %s: loader broke its contract, the call panicked (tolerated)", label, entry)
+			return decision{}
+		}
+		if !ld.broken {
+			outOfContract = false // (the faulty call was never made)
+		}
+	} else if guard(o, entry, func() {
 		if useHook {
 			err = inv.ExecutionAllowedWithArgsHook(ld, hookFor(c, &hookFailed))
 		} else {
@@ -1157,6 +1200,14 @@ func (w *worldExec) decideProv(label string, c *CheckSpec, useHook bool, prov st
 		return decision{}
 	}
 	allowed := err == nil
+	if outOfContract && allowed {
+		o.Violate("C01", "principals", fmt.Sprintf("%s allowed although the loader handed out no delegation for a proof (it returned neither a delegation nor an error, or panicked)", label), map[string]string{"entry": entry, "loader": "out-of-contract"})
+		return decision{}
+	}
+	if outOfContract {
+		o.Eval("C01")
+		return decision{} // refused: whatever the reason given
+	}
 	tNS := nowNS()
 
 	// model: exactly the delegations the loader returned during this call
@@ -1459,6 +1510,45 @@ func (w *worldExec) probe(p *ProbeSpec) {
 		if dec != nil {
 			one(dec, "decoded", toNS(nbf, 0), toNS(exp, 0), t, false)
 		}
+	}
+	// instants far from everything (centuries before and after: beyond what fits in int64
+	// nanoseconds since 1970), by whole seconds
+	far := func(tk token.Token, form string) {
+		for _, sec := range []int64{9_500_000_000, 20_000_000_000, 250_000_000_000, -12_000_000_000, -63_082_281_600, -200_000_000_000} {
+			var got bool
+			if guard(o, "IsValidAt", func() { got = tk.IsValidAt(time.Unix(simEpochUnix+sec, 0)) }) {
+				return
+			}
+			in, out := true, false
+			if nbf != nil {
+				if sec < *nbf {
+					in, out = false, true
+				} else if sec <= *nbf+1 {
+					in = false
+				}
+			}
+			if exp != nil {
+				if sec > *exp+1 {
+					in, out = false, true
+				} else if sec >= *exp {
+					in = false
+				}
+			}
+			o.Eval("C04")
+			o.Sig("C04", "single-far", a.kind, form, nbf != nil, exp != nil, in, out, sec > 0)
+			if in && !got {
+				o.Violate("C04", "single-token", fmt.Sprintf("%s (%s) invalid at an instant %d s from the epoch, strictly inside its window", p.Label, form, sec), map[string]string{"form": form, "instant": "far"})
+			}
+			if out && got {
+				o.Violate("C04", "single-token", fmt.Sprintf("%s (%s) valid at an instant %d s from the epoch, strictly outside its window", p.Label, form, sec), map[string]string{"form": form, "instant": "far"})
+			}
+		}
+	}
+	if hasObj {
+		far(a.obj, "constructed")
+	}
+	if dec != nil {
+		far(dec, "decoded")
 	}
 	if hasObj {
 		one(a.obj, "constructed", toNS(nbf, sub), toNS(exp, sub), nowNS(), true)
